@@ -31,6 +31,7 @@ def sum_axioms(arr, fn=None):
     return [fn(arr, 0) == 0, z3.ForAll([k], z3.Implies(k >= 0, fn(arr, k + 1) == fn(arr, k) + z3.Select(arr, k)))]
 
 
+INF = z3.Const("INF", z3.RealSort())       # float('inf') under A-FINITE
 CLASS_OF = z3.Function("class_of", z3.IntSort(), z3.IntSort())     # dynamic class of a reference
 # dynamic class membership: one predicate per class name
 _isinst = {}
